@@ -4173,11 +4173,45 @@ var loopsFromOne = map[string]string{
 func init() {
 	register(&Rule{
 		ID:    "C20.fullrange",
-		Props: []string{"C20", "C03", "C09", "C01", "C16", "C17", "C14"},
-		Doc:   "loops over the elements of a geometry start at the first element: every counting loop (i := c; …; i++) in geom, rtree and carto starts at 0 (a `for range` at its hidden -1), except the reviewed loops that start at 1 for a stated reason (they pair element i with i-1, or treat element 0 before the loop) — and those start at exactly 1. A loop that quietly starts at 1 (or 2) skips the first point, segment, ring or member: the verdict of a validation, an intersection test or a conversion then ignores it",
+		Props: []string{"C20", "C03", "C09", "C01", "C16", "C17", "C14", "C13"},
+		Doc:   "loops over the elements of a geometry start at the first element: every counting loop (i := c; …; i++) in geom, rtree and carto starts at 0 (a `for range` at its hidden -1), except the reviewed loops that start at 1 for a stated reason (they pair element i with i-1, or treat element 0 before the loop) — and those start at exactly 1. A loop that quietly starts at 1 (or 2) skips the first point, segment, ring or member: the verdict of a validation, an intersection test or a conversion then ignores it. A start that is a 0-or-k variable carried round an enclosing loop without a reset (raised once, it stays raised) is reported likewise",
 		Floor: 60,
 		Run:   runC20FullRange,
 	})
+}
+
+// carriedConstStart: the start value of a counting loop resolves, through phis only, to integer
+// constants; mx is the largest, carried says one of those phis sits at the header of a loop that
+// encloses this one (the value survives from one pass of that loop to the next).
+func carriedConstStart(cl countLoop) (mx int64, carried, ok bool) {
+	seen := map[ssa.Value]bool{}
+	ok = true
+	var walk func(v ssa.Value)
+	walk = func(v ssa.Value) {
+		if !ok || seen[v] {
+			return
+		}
+		seen[v] = true
+		if k, isC := constInt(v); isC {
+			if k > mx {
+				mx = k
+			}
+			return
+		}
+		phi, isPhi := v.(*ssa.Phi)
+		if !isPhi {
+			ok = false
+			return
+		}
+		if outer := naturalLoop(phi.Block()); outer != nil && phi.Block() != cl.h && outer[cl.h] {
+			carried = true
+		}
+		for _, e := range phi.Edges {
+			walk(e)
+		}
+	}
+	walk(cl.init)
+	return
 }
 
 func runC20FullRange(c *Ctx) {
@@ -4191,6 +4225,14 @@ func runC20FullRange(c *Ctx) {
 		for _, cl := range countingLoops(f) {
 			init, isC := constInt(cl.init)
 			if !isC {
+				// A start that is a choice between constants (start := 0; if … { start = 1 }) whose
+				// choice is carried round an ENCLOSING loop: once raised on one pass it stays raised on
+				// every later pass, so those passes skip their first element(s) unconditionally.
+				if mx, carried, ok := carriedConstStart(cl); ok && mx > 0 && carried {
+					n++
+					k++
+					c.Bad(firstPos(cl.h), FuncName(f), fmt.Sprintf("counting loop #%d", loopOrdinal(f, cl.h)), fmt.Sprintf("the loop's start is a variable that is 0 or %d and is carried from one pass of the enclosing loop to the next without being reset: after the first pass that raises it, every later pass starts at %d and never looks at its first element(s) (point, segment, ring, member)", mx, mx))
+				}
 				continue // starts where another loop or computation left off: not this rule's business
 			}
 			n++
